@@ -156,6 +156,22 @@ func plan(d *mon.Driver) ([]CaseData, []target, map[string]bool, []string, error
 		c.Kind = "generic"
 		cases = append(cases, c)
 	}
+	// "shared-globals": one globals map (built once, so one object per module) serves two evaluations that are
+	// given different OS objects; the operation runs in the second one, after the first has used the stdio
+	// attributes, the environment and the cwd of its own OS. Everything expected of "top" is expected here.
+	perShared := map[string]int{}
+	for i := 0; i < nBase; i++ {
+		c := cases[i]
+		if c.Ctx != "top" {
+			continue
+		}
+		if perShared[c.Op+c.Route] >= d.N(3, 1000) {
+			continue
+		}
+		perShared[c.Op+c.Route]++
+		c.Ctx = "shared-globals"
+		cases = append(cases, c)
+	}
 	for op := range rec {
 		if !live[op] {
 			notes = append(notes, "recipe for "+op+" has no live function (skipped)")
@@ -446,7 +462,7 @@ func drive(d *mon.Driver, replay string) int {
 	}
 	d.Extra("live_operation_names", opNames)
 	d.Extra("operations_without_recipe_called_generically", gl)
-	d.Extra("contexts", append(append([]string{}, contexts...), "cancel-defer", "bare-vos"))
+	d.Extra("contexts", append(append([]string{}, contexts...), "cancel-defer", "bare-vos", "shared-globals"))
 	d.Extra("routes", routes)
 	d.Extra("exhaustive", false)
 	return d.Finish(d.N(6000, 40000), d.N(2000, 8000))
@@ -487,6 +503,9 @@ func judge(d *mon.Driver, c *CaseData, o *Out, ext []string, called map[string]i
 	}
 	if c.Events && o.Marked && o.NEv == 0 {
 		real = append(real, "no-recording-event: the operation completed without a single call on the supplied OS")
+	}
+	if o.FirstOS != "" {
+		real = append(real, "served-by-another-evaluations-os: "+o.FirstOS)
 	}
 	// (ii) real content / real identity in anything the script could see or in the virtual state
 	visible := []string{o.Result, o.Err, o.Stdout, o.Stderr}
@@ -584,7 +603,7 @@ func judge(d *mon.Driver, c *CaseData, o *Out, ext []string, called map[string]i
 	} else {
 		d.Event("cases_pure_no_os_call", 1)
 	}
-	if c.Kind == "recipe" && o.NEv > 0 && (c.Ctx == "clone" || c.Ctx == "go" || c.Ctx == "module" || c.Ctx == "cancel-defer" || c.Ctx == "bare-vos" || strings.HasPrefix(c.Ctx, "late-")) {
+	if c.Kind == "recipe" && o.NEv > 0 && (c.Ctx == "clone" || c.Ctx == "go" || c.Ctx == "module" || c.Ctx == "cancel-defer" || c.Ctx == "bare-vos" || c.Ctx == "shared-globals" || strings.HasPrefix(c.Ctx, "late-")) {
 		d.Sample(map[string]any{"op": c.Op, "variant": c.Variant, "ctx": c.Ctx, "route": c.Route, "op_src": c.OpSrc,
 			"result": mon.Truncate(o.Result, 120), "err": o.Err, "events": o.Evs, "virtual_state_changes": o.Diff})
 	}
